@@ -5,121 +5,8 @@
     implementation's outcome. *)
 From V.Lib Require Import Base Hex.
 From V.Gen Require Import C11Consts.
-From V.C11 Require Import Model Spec.
+From V.C11 Require Import Model Spec Tab Eqb Legacy CorrLegacy Gap CorrGap.
 Local Open Scope N_scope.
-
-(* ------------------------------------------------------------------------------------------ *)
-(** * Oracle tables *)
-
-(** (function id, key bytes, index) -> result.
-    ids: 1 o_sk_fvk 2 s_sk_fvk 3 t_sk_pk 4 o_fvk_ivk 5 s_fvk_ivk 6 t_pk_ivk 7 o_addr 8 s_addr
-    9 t_addr; decoders 10 o_sk 11 s_sk 12 t_sk 13 o_fvk 14 s_fvk 15 t_fvk 16 o_ivk 17 s_ivk 18 t_ivk *)
-Definition oentry := (N * bytes * N * ores)%type.
-Definition otab := list oentry.
-
-Fixpoint lookup (t : otab) (f : N) (k : bytes) (i : N) : option ores :=
-  match t with
-  | [] => None
-  | (f', k', i', r) :: rest =>
-      if (f =? f') && (i =? i') && bytes_eqb k k' then Some r else lookup rest f k i
-  end.
-
-(** short forms used by the harness printer *)
-Definition hx (s : String.string) : bytes := hex s.
-Definition oe (f : N) (k : String.string) (i : N) (r : ores) : oentry := (f, hex k, i, r).
-Definition osome (s : String.string) : ores := OSome (hex s).
-Definition sx (s : String.string) : option bytes := Some (hex s).
-Definition it (t : N) (s : String.string) : item := (t, hex s).
-
-(** A missing entry yields a value no real byte string can equal. *)
-Definition poison : bytes := [256].
-
-Definition look_bytes t f k i : bytes :=
-  match lookup t f k i with Some (OSome b) => b | _ => poison end.
-Definition look_opt t f k i : option bytes :=
-  match lookup t f k i with Some (OSome b) => Some b | Some ONone => None | _ => Some poison end.
-Definition look_ores t f k i : ores :=
-  match lookup t f k i with Some r => r | None => OSome poison end.
-
-Definition orc_of (t : otab) : oracles :=
-  mkOracles
-    (fun k => look_bytes t 1 k 0) (fun k => look_bytes t 2 k 0) (fun k => look_bytes t 3 k 0)
-    (fun k => look_bytes t 4 k 0) (fun k => look_bytes t 5 k 0) (fun k => look_opt t 6 k 0)
-    (fun k j => look_bytes t 7 k j) (fun k j => look_opt t 8 k j) (fun k j => look_opt t 9 k j)
-    (fun k => look_ores t 10 k 0) (fun k => look_ores t 11 k 0) (fun k => look_ores t 12 k 0)
-    (fun k => look_ores t 13 k 0) (fun k => look_ores t 14 k 0) (fun k => look_ores t 15 k 0)
-    (fun k => look_ores t 16 k 0) (fun k => look_ores t 17 k 0) (fun k => look_ores t 18 k 0).
-
-(* ------------------------------------------------------------------------------------------ *)
-(** * Boolean equalities *)
-
-Definition obytes_eqb := option_eqb bytes_eqb.
-Definition item_eqb (a b : item) : bool := (fst a =? fst b) && bytes_eqb (snd a) (snd b).
-Definition items_eqb := list_eqb item_eqb.
-Definition unit_eqb (_ _ : unit) := true.
-
-Definition tc_eqb (a b : tc) : bool :=
-  match a, b with
-  | TcP2pkh, TcP2pkh | TcP2sh, TcP2sh | TcSapling, TcSapling | TcOrchard, TcOrchard => true
-  | TcUnknown x, TcUnknown y => x =? y
-  | _, _ => false
-  end.
-Definition rr_err_eqb (a b : rr_err) : bool :=
-  match a, b with Conflict, Conflict | NoShieldedReceiver, NoShieldedReceiver => true | _, _ => false end.
-Definition reqs_eqb (a b : reqs) : bool :=
-  req_eqb (rq_o a) (rq_o b) && req_eqb (rq_s a) (rq_s b) && req_eqb (rq_t a) (rq_t b).
-Definition usk_eqb (a b : usk) : bool :=
-  bytes_eqb (usk_t a) (usk_t b) && bytes_eqb (usk_s a) (usk_s b) && bytes_eqb (usk_o a) (usk_o b).
-Definition ufvk_eqb (a b : ufvk) : bool :=
-  obytes_eqb (fvk_t a) (fvk_t b) && obytes_eqb (fvk_s a) (fvk_s b) && obytes_eqb (fvk_o a) (fvk_o b)
-  && items_eqb (fvk_unknown a) (fvk_unknown b).
-Definition uivk_eqb (a b : uivk) : bool :=
-  obytes_eqb (ivk_t a) (ivk_t b) && obytes_eqb (ivk_s a) (ivk_s b) && obytes_eqb (ivk_o a) (ivk_o b)
-  && items_eqb (ivk_unknown a) (ivk_unknown b).
-Definition ua_eqb (a b : ua) : bool :=
-  obytes_eqb (ua_o a) (ua_o b) && obytes_eqb (ua_s a) (ua_s b) && obytes_eqb (ua_t a) (ua_t b).
-Definition dec_err_eqb (a b : dec_err) : bool :=
-  match a, b with
-  | ReadError x, ReadError y => x =? y
-  | EraInvalid, EraInvalid | EraMismatch, EraMismatch | TypecodeInvalid, TypecodeInvalid
-  | LengthInvalid, LengthInvalid | OutOfFuel, OutOfFuel => true
-  | LengthMismatch t l, LengthMismatch t' l' => tc_eqb t t' && (l =? l')
-  | InsufficientData t, InsufficientData t' => tc_eqb t t'
-  | KeyDataInvalid t, KeyDataInvalid t' => tc_eqb t t'
-  | _, _ => false
-  end.
-Definition parse_err_eqb (a b : parse_err) : bool :=
-  match a, b with
-  | BothP2phkAndP2sh, BothP2phkAndP2sh | InvalidEncoding, InvalidEncoding
-  | InvalidTypecodeOrder, InvalidTypecodeOrder | OnlyTransparent, OnlyTransparent
-  | NotUnified, NotUnified | UnknownPrefix, UnknownPrefix | ParseOutOfFuel, ParseOutOfFuel => true
-  | DuplicateTypecode x, DuplicateTypecode y => x =? y
-  | InvalidTypecodeValue x, InvalidTypecodeValue y => x =? y
-  | _, _ => false
-  end.
-Definition derr_eqb (a b : derr) : bool :=
-  match a, b with
-  | EParse x, EParse y => parse_err_eqb x y
-  | ENetwork, ENetwork => true
-  | EKey x, EKey y => dec_err_eqb x y
-  | _, _ => false
-  end.
-Definition aerr_eqb (a b : aerr) : bool :=
-  match a, b with
-  | InvalidTransparentChildIndex x, InvalidTransparentChildIndex y => x =? y
-  | InvalidSaplingDiversifierIndex x, InvalidSaplingDiversifierIndex y => x =? y
-  | DiversifierSpaceExhausted, DiversifierSpaceExhausted
-  | ShieldedReceiverRequired, ShieldedReceiverRequired | FindOutOfFuel, FindOutOfFuel => true
-  | ReceiverTypeNotSupported x, ReceiverTypeNotSupported y => tc_eqb x y
-  | KeyNotAvailable x, KeyNotAvailable y => tc_eqb x y
-  | _, _ => false
-  end.
-Definition enc_eqb (a b : bytes * bytes) : bool := bytes_eqb (fst a) (fst b) && bytes_eqb (snd a) (snd b).
-
-Definition addr_res := outcome ua aerr.
-Definition addr_res_eqb := outcome_eqb ua_eqb aerr_eqb.
-Definition find_res := outcome (ua * N) aerr.
-Definition find_res_eqb := outcome_eqb (pair_eqb ua_eqb N.eqb) aerr_eqb.
 
 (* ------------------------------------------------------------------------------------------ *)
 (** * Cases *)
@@ -148,7 +35,11 @@ Inductive case :=
 | CAddr (t : otab) (k : keylvl) (j : N) (r : request) (os : list addr_res)
 | CFind (t : otab) (k : keylvl) (j : N) (r : request) (os : list find_res)
 (* clauses that are cryptographic: checked by the harness, reported as observed booleans *)
-| CCrypto (kind : N) (ok : bool).
+| CCrypto (kind : N) (ok : bool)
+(* zcash_keys::encoding (legacy Sapling / transparent encodings) *)
+| CLegacy (l : lcase)
+(* gap_limits.rs *)
+| CGap (g : gcase).
 
 (* ------------------------------------------------------------------------------------------ *)
 (** * Model = implementation *)
@@ -206,6 +97,8 @@ Definition run_case (c : case) : bool :=
   | CAddr t k j r os => list_eqb addr_res_eqb (model_addrs (orc_of t) k j r) os
   | CFind t k j r os => list_eqb find_res_eqb (model_finds (orc_of t) k j r) os
   | CCrypto _ _ => true
+  | CLegacy l => lrun l
+  | CGap g => grun g
   end.
 
 (* ------------------------------------------------------------------------------------------ *)
@@ -365,6 +258,8 @@ Definition prop_case (c : case) : bool :=
       | None => true
       end
   | CCrypto _ ok => ok
+  | CLegacy l => lprop l
+  | CGap g => gprop g
   end.
 
 (** Known-finding classes: none. *)
@@ -431,4 +326,6 @@ Definition tag_case (c : case) : N :=
         | _ => 19
         end
   | CCrypto kind ok => 3000 + 2 * kind + (if ok then 0 else 1)
+  | CLegacy l => ltag l
+  | CGap g => gtag g
   end.
